@@ -1,17 +1,24 @@
 package main
 
 import (
-	"net/http/httptest"
-	"encoding/json"
 	"bytes"
+	"encoding/json"
 	"fmt"
+	htmltemplate "html/template"
 	"io/ioutil"
+	"mime/multipart"
 	"net/http"
+	"net/http/httptest"
 	"net/url"
 	"path/filepath"
+	"sort"
 	"strings"
 	"testing"
+	"time"
+	"unicode/utf8"
 
+	"github.com/Cloud-Foundations/keymaster/lib/paths"
+	"github.com/Cloud-Foundations/keymaster/lib/webapi/v0/proto"
 	"golang.org/x/net/html"
 )
 
@@ -40,6 +47,11 @@ func c18Payloads() []string {
 
 // walk the token stream of an HTML5 tokenizer and look for canary-named elements or attributes
 func c18Scan(body []byte) (problems []string) {
+	// html/template never lets a request-controlled '<' through in any context (text, attribute, script,
+	// RCDATA, comment): the raw bytes of an element-opening payload in an HTML body are a finding by themselves
+	if bytes.Contains(body, []byte("<"+canary)) {
+		problems = append(problems, "raw <"+canary+" bytes in the body")
+	}
 	z := html.NewTokenizer(bytes.NewReader(body))
 	inScript := false
 	for {
@@ -77,13 +89,121 @@ func c18Scan(body []byte) (problems []string) {
 	}
 }
 
+// is the response rendered as a document by a browser: declared text/html (or XHTML / SVG), or no declared
+// type and a body that the sniffing algorithm (net/http's DetectContentType implements it) calls text/html
 func c18IsHTML(rr http.Header, body []byte) bool {
-	ct := rr.Get("Content-Type")
+	ct := strings.ToLower(strings.TrimSpace(rr.Get("Content-Type")))
 	if ct == "" {
 		ct = http.DetectContentType(body)
 	}
-	return strings.HasPrefix(ct, "text/html")
+	return strings.HasPrefix(ct, "text/html") || strings.HasPrefix(ct, "application/xhtml") || strings.HasPrefix(ct, "image/svg")
 }
+
+func c18Truncate(s string, n int) string {
+	if len(s) > n {
+		return s[:n] + "…"
+	}
+	return s
+}
+
+func c18CtypeClass(rr http.Header) int {
+	ct := strings.ToLower(strings.TrimSpace(rr.Get("Content-Type")))
+	switch {
+	case ct == "":
+		return 2
+	case strings.HasPrefix(ct, "text/html") || strings.HasPrefix(ct, "application/xhtml") || strings.HasPrefix(ct, "image/svg"):
+		return 0
+	case strings.HasPrefix(ct, "text/plain"):
+		return 1
+	}
+	return 3
+}
+
+// ---------------------------------------------------------------- dictionary harvested from the current source
+
+type c18HItem struct {
+	Name  string `json:"name"`
+	Depth int    `json:"depth"`
+	Where string `json:"where"`
+}
+
+type c18HRoute struct {
+	PathExpr string     `json:"path_expr"`
+	Handler  string     `json:"handler"`
+	Func     string     `json:"func"`
+	Params   []c18HItem `json:"params"`
+	Literals []c18HItem `json:"literals"`
+	Headers  []c18HItem `json:"headers"`
+}
+
+type c18HarvestFile struct {
+	Routes    []c18HRoute `json:"routes"`
+	AllParams []string    `json:"all_params"`
+}
+
+// tools/extract writes the table next to mux_gen.go ($VERIF_OUT/gen) on every run
+func c18LoadHarvest(t *testing.T) *c18HarvestFile {
+	b, err := ioutil.ReadFile(filepath.Join(verifOut(), "gen", "c18_harvest.json"))
+	if err != nil {
+		t.Fatalf("harvested parameter table missing: %v", err)
+	}
+	var h c18HarvestFile
+	if err := json.Unmarshal(b, &h); err != nil {
+		t.Fatal(err)
+	}
+	return &h
+}
+
+// a request that makes the route succeed today (or get as far as it can); the generator starts from it and
+// changes one thing at a time
+type c18Base struct {
+	name   string
+	method string
+	suffix string            // appended to the route path
+	form   func() url.Values // fresh values per request (single-use artefacts)
+	file   string            // multipart file field (certificate requests), "" = urlencoded
+	creds  []string          // credential kinds to try first; nil = all
+	basic  [2]string
+}
+
+func c18BuildRequest(path string, b c18Base, over map[string]string) *http.Request {
+	form := url.Values{}
+	if b.form != nil {
+		form = b.form()
+	}
+	for k, v := range over {
+		form.Set(k, v)
+	}
+	var req *http.Request
+	if b.file != "" && b.method != "GET" {
+		body := &bytes.Buffer{}
+		mw := multipart.NewWriter(body)
+		for k, vs := range form {
+			for _, v := range vs {
+				if k == b.file {
+					fw, _ := mw.CreateFormFile(k, "key.pub")
+					fw.Write([]byte(v))
+				} else {
+					mw.WriteField(k, v)
+				}
+			}
+		}
+		mw.Close()
+		req = httptest.NewRequest(b.method, "https://keymaster.example"+path+b.suffix, body)
+		req.Header.Set("Content-Type", mw.FormDataContentType())
+		req.Host = "keymaster.example"
+		req.RemoteAddr = "10.1.2.3:34567"
+	} else {
+		req = verifNewRequest(b.method, path+b.suffix, form)
+	}
+	if b.basic[0] != "" {
+		req.SetBasicAuth(b.basic[0], b.basic[1])
+	}
+	req.Header.Set("Accept", "text/html,application/xhtml+xml,application/xml;q=0.9,*/*;q=0.8")
+	req.Header.Set("User-Agent", "Mozilla/5.0 Chrome/120")
+	return req
+}
+
 
 func c18ExtractValue(body []byte) (string, bool) {
 	i := bytes.Index(body, []byte(`id="login_destination_input"`))
@@ -114,10 +234,16 @@ func TestVerif_C18(t *testing.T) {
 		c.Base.WebauthTokenForCliLifetime = 3600e9
 		c.Base.PasswordAttemptGlobalBurstLimit = 1000000
 		c.Base.PasswordAttemptGlobalRateLimit = 1000000
+		c.Base.AutomationUsers = []string{"svc-automation"}
+		c.Base.AutomationAdmins = []string{"autoadm"}
 		c.OpenIDConnectIDP.Client = append(c.OpenIDConnectIDP.Client, OpenIDConnectClientConfig{ClientID: "app", ClientSecret: "s", AllowedRedirectDomains: []string{"example.com"}})
 	})
 	routes := verifRouteTable()
-	fields := []string{"user", "username", "login_destination", "error", "name", "index", "action", "client_id", "redirect_uri", "state", "scope", "nonce", "token", "port", "OTP", "otp", "code", "password", "duration", "type", "identity", "audience", "response_type", "OTPValue", "email", "message"}
+	harvest := c18LoadHarvest(t)
+	// every parameter name any handler of the current tree reads (plus a few names no handler reads: a field
+	// that is only echoed)
+	fields := append([]string{"error", "message", "email"}, harvest.AllParams...)
+	res.Extra["harvested_params"] = harvest.AllParams
 	creds := []struct {
 		name   string
 		cookie *http.Cookie
@@ -214,6 +340,247 @@ func TestVerif_C18(t *testing.T) {
 			}
 		}
 	}
+
+	// ---- dictionary-driven probes: per route, start from a request that gets as far as the route lets it
+	// today, then (a) replace/add ONE harvested parameter at a time by a payload, for every credential kind,
+	// GET and POST; (b) for the credential kinds on which the base request succeeds, additionally set every
+	// harvested parameter to every harvested literal of the same handler (a "mode") and repeat (a) under it.
+	// Every response that a browser would render as a document is tokenised, failure bodies included.
+	keys := verifNewKeys()
+	hv := map[string]c18HRoute{}
+	for _, hr := range harvest.Routes {
+		if _, dup := hv[hr.Handler]; !dup {
+			hv[hr.Handler] = hr
+		}
+	}
+	authorizeForm := func() url.Values {
+		f := url.Values{}
+		f.Set("client_id", "app")
+		f.Set("redirect_uri", "https://app.example.com/cb")
+		f.Set("scope", "openid")
+		f.Set("response_type", "code")
+		return f
+	}
+	userU2F := env.cookie("alice", AuthTypePassword|AuthTypeU2F)
+	codeUses, cachedCode := 0, ""
+	freshCode := func() string {
+		// the code is a signed token that stays valid for minutes: one authorization serves a batch of probes
+		if codeUses++; cachedCode != "" && codeUses%64 != 0 {
+			return cachedCode
+		}
+		ra := verifNewRequest("GET", idpOpenIDCAuthorizationPath, authorizeForm())
+		ra.AddCookie(userU2F)
+		rr, _ := env.serve(ra)
+		if u, err := url.Parse(rr.Header().Get("Location")); err == nil {
+			cachedCode = u.Query().Get("code")
+		}
+		return cachedCode
+	}
+	otpFor := func(user string) string {
+		fo := url.Values{}
+		fo.Set("username", user)
+		ro := verifNewRequest("POST", generateBoostrapOTPPath, fo)
+		ro.AddCookie(creds[2].cookie)
+		rro, _ := env.serve(ro)
+		var od newBootstrapOTPPPageTemplateData
+		json.Unmarshal(rro.Body.Bytes(), &od)
+		return od.BootstrapOTPValue
+	}
+	form := func(kv ...string) func() url.Values {
+		return func() url.Values {
+			f := url.Values{}
+			for i := 0; i+1 < len(kv); i += 2 {
+				f.Add(kv[i], kv[i+1])
+			}
+			return f
+		}
+	}
+	bases := map[string][]c18Base{
+		idpOpenIDCAuthorizationPath: {{name: "authorize", method: "GET", form: authorizeForm}, {name: "authorize", method: "POST", form: authorizeForm}},
+		getRoleRequestingPath: {{name: "role-cert", method: "POST", form: func() url.Values { return roleCertForm("svc-automation", []string{"10.0.0.0/8"}, keys.derPubRU) }},
+			{name: "role-cert", method: "GET", form: func() url.Values { return roleCertForm("svc-automation", []string{"10.0.0.0/8"}, keys.derPubRU) }}},
+		refreshRoleRequestingCertPath: {{name: "role-refresh", method: "POST", form: func() url.Values { return roleCertForm("", nil, keys.derPubRU) }}},
+		proto.LoginPath:               {{name: "login", method: "POST", creds: []string{"none", "pwonly"}, form: form("username", "alice", "password", "alicepw")}, {name: "login", method: "GET", creds: []string{"none", "pwonly"}, form: form("username", "alice", "password", "alicepw")}},
+		idpOpenIDCTokenPath: {{name: "token", method: "POST", creds: []string{"none"}, basic: [2]string{"app", "s"}, form: func() url.Values {
+			return form("grant_type", "authorization_code", "redirect_uri", "https://app.example.com/cb", "code", freshCode())()
+		}}},
+		generateBoostrapOTPPath: {{name: "bootstrap-otp-issue", method: "POST", form: form("username", "alice")}},
+		addUserPath:             {{name: "add-user", method: "POST", form: form("username", "carol")}},
+		deleteUserPath:          {{name: "delete-user", method: "POST", form: form("username", "carol")}},
+		u2fTokenManagementPath:  {{name: "u2f-manage", method: "POST", form: form("username", "alice", "index", "0", "name", "key", "action", "Update")}},
+		totpTokenManagementPath: {{name: "totp-manage", method: "POST", form: form("username", "alice", "index", "0", "name", "key", "action", "Update")}},
+		paths.SendAuthDocument:  {{name: "send-auth-document", method: "GET", form: form("port", "12345")}, {name: "send-auth-document", method: "POST", form: form("port", "12345")}},
+		bootstrapOtpAuthPath: {{name: "bootstrap-otp", method: "POST", creds: []string{"pwonly"}, form: func() url.Values { return form("OTP", otpFor("alice"))() }}},
+		certgenPath: {{name: "certgen-x509", method: "POST", suffix: "alice", file: "pubkeyfile", creds: []string{"user"}, form: form("type", "x509", "pubkeyfile", keys.pemPub)},
+			{name: "certgen-ssh", method: "POST", suffix: "alice", file: "pubkeyfile", creds: []string{"user"}, form: form("type", "ssh", "pubkeyfile", keys.sshPub)}},
+	}
+	hcreds := append(creds[:len(creds):len(creds)], struct {
+		name   string
+		cookie *http.Cookie
+	}{"autoadm", env.cookie("autoadm", AuthTypePassword|AuthTypeU2F)})
+	credByName := map[string]*http.Cookie{}
+	for _, c := range hcreds {
+		credByName[c.name] = c.cookie
+	}
+	hPayloads := []string{payloads[0], payloads[2], payloads[3], payloads[1], payloads[7], payloads[5]}
+	if verifThorough() {
+		hPayloads = payloads
+	}
+	type c18Mode struct{ param, value string }
+	hsend := func(route verifRoute, b c18Base, credName string, mode c18Mode, param, payload string) int {
+		over := map[string]string{}
+		if mode.param != "" {
+			over[mode.param] = mode.value
+		}
+		if param != "" {
+			over[param] = payload
+		}
+		req := c18BuildRequest(route.Path, b, over)
+		if ck := credByName[credName]; ck != nil {
+			req.AddCookie(ck)
+		}
+		rr, _ := env.serve(req)
+		if param == "" {
+			return rr.Code
+		}
+		body := rr.Body.Bytes()
+		isHTML := c18IsHTML(rr.Header(), body)
+		echoes := bytes.Contains(body, []byte(canary))
+		var problems []string
+		if isHTML {
+			problems = c18Scan(body)
+		}
+		modeS := ""
+		if mode.param != "" {
+			modeS = mode.param + "=" + mode.value
+		}
+		res.eval(fmt.Sprintf("h|%s|%s|%s|%s|%s|%s|%s|%v", route.Path, b.name, b.method, credName, modeS, param, payload, problems), isHTML && echoes)
+		res.bump("harvest_probes")
+		if rr.Code < 400 {
+			res.bump("harvest_probes_on_success_path")
+		}
+		if isHTML {
+			res.bump("harvest_html_responses")
+		}
+		if isHTML && echoes {
+			res.bump("harvest_html_echoing_payload")
+		}
+		if rr.Code >= 400 && echoes {
+			res.bump("harvest_failure_bodies_echoing_payload")
+		}
+		if len(problems) > 0 {
+			declared := rr.Header().Get("Content-Type")
+			if declared == "" {
+				declared = "(none: sniffed)"
+			}
+			res.hit(verifHit{Key: "C18:markup:" + route.Path + ":" + param, Oracle: "request-controlled text became an element, attribute or script content of a response rendered as a document",
+				What: fmt.Sprintf("%s %s%s as %s, %s (base %s): parameter %s = %q -> status %d, Content-Type %s: %s", b.method, route.Path, b.suffix, credName, map[bool]string{true: "with " + modeS, false: "no mode parameter"}[modeS != ""], b.name, param, payload, rr.Code, declared, strings.Join(problems, "; ")),
+				Case: map[string]interface{}{"route": route.Path, "method": b.method, "base": b.name, "cred": credName, "mode": modeS, "param": param, "payload": payload}, Observed: problems})
+		}
+		return rr.Code
+	}
+	routeTimes := map[string]string{}
+	for _, route := range routes {
+		if strings.HasPrefix(route.Path, "/static/") || strings.HasPrefix(route.Path, "/custom_static/") {
+			continue
+		}
+		hr := hv[route.Handler]
+		bs := bases[route.Path]
+		routeStart := time.Now()
+		probesBefore := res.counts["harvest_probes"]
+		if len(bs) == 0 {
+			bs = []c18Base{{name: "bare", method: "GET"}, {name: "bare", method: "POST"}}
+		}
+		for _, b := range bs {
+			// candidate parameters: harvested for this handler + the names of the base request
+			var params []string
+			seenP := map[string]bool{}
+			for _, it := range hr.Params {
+				if !seenP[it.Name] {
+					seenP[it.Name] = true
+					params = append(params, it.Name)
+				}
+			}
+			var baseKeys []string
+			if b.form != nil {
+				for k := range b.form() {
+					baseKeys = append(baseKeys, k)
+				}
+			}
+			sort.Strings(baseKeys)
+			for _, k := range baseKeys {
+				if !seenP[k] {
+					seenP[k] = true
+					params = append(params, k)
+				}
+			}
+			var literals []string
+			for _, it := range hr.Literals {
+				if it.Depth <= 1 || verifThorough() {
+					literals = append(literals, it.Name)
+				}
+			}
+			// which credential kinds does the base request succeed with today?
+			var okCreds, allCreds []string
+			for _, c := range hcreds {
+				allCreds = append(allCreds, c.name)
+			}
+			order := allCreds
+			if b.creds != nil {
+				order = b.creds
+			}
+			for _, cn := range order {
+				if code := hsend(route, b, cn, c18Mode{}, "", ""); code < 400 {
+					okCreds = append(okCreds, cn)
+				}
+			}
+			if len(okCreds) > 0 {
+				res.bump("harvest_bases_succeeding")
+			} else {
+				res.bump("harvest_bases_not_succeeding")
+			}
+			// (a) one parameter at a time, every credential kind (the kinds listed for the base when the route
+			// does not look at session credentials at all: client-authenticated or credential-issuing routes)
+			for _, cn := range order {
+				for _, pm := range params {
+					for _, pl := range hPayloads {
+						hsend(route, b, cn, c18Mode{}, pm, pl)
+					}
+				}
+			}
+			// (b) modes: parameter := literal, for the credentials the route accepts
+			modeCreds := okCreds
+			if !verifThorough() && len(modeCreds) > 1 {
+				modeCreds = modeCreds[:1]
+			}
+			for _, cn := range modeCreds {
+				for _, mp := range params {
+					for _, lit := range literals {
+						mode := c18Mode{mp, lit}
+						if !verifThorough() {
+							// does the mode parameter alone keep the request on its success path?  (a literal
+							// that the handler refuses needs no further product)
+							if code := hsend(route, b, cn, mode, "", ""); code >= 400 {
+								res.bump("harvest_modes_refused")
+								continue
+							}
+						}
+						res.bump("harvest_modes_accepted")
+						for _, pm := range params {
+							if pm == mp {
+								continue
+							}
+							for _, pl := range hPayloads[:2] {
+								hsend(route, b, cn, mode, pm, pl)
+							}
+						}
+					}
+				}
+			}
+		}
+		routeTimes[route.Path] = fmt.Sprintf("%d probes, %d ms", res.counts["harvest_probes"]-probesBefore, time.Since(routeStart).Milliseconds())
+	}
+	res.Extra["harvest_route_cost"] = routeTimes
 	// success paths: a completed login / second factor with a hostile destination (a second state whose
 	// web UI accepts the password alone, so that the login handler answers with the redirect itself)
 	env2 := verifSetup(t, func(c *AppConfigFile, dir string) {
@@ -328,16 +695,134 @@ func TestVerif_C18(t *testing.T) {
 		rr3, _ := env.serve(req3)
 		record(req3.URL.String(), rr3.Body.Bytes(), "authorize-login")
 	}
+	// ---- the failure response, construction by construction: writeFailureResponse called with request-
+	// controlled detail text, on the service and the admin port, for API and browser clients; the model's
+	// failure_response must give the same declared type, the same body bytes and the same "a browser renders
+	// it as a document" verdict
+	var fcases, fidx []string
+	for _, host := range []string{"keymaster.example", "keymaster.example:443", "keymaster.example:6920"} {
+		for _, accept := range []string{"", "application/json", "text/html", "text/html,application/xhtml+xml,*/*;q=0.8"} {
+			for _, code := range []int{400, 401, 403, 404, 405, 429, 500, 503} {
+				msgs := append([]string{"", "Not an admin user", "<html>", " <!DOCTYPE html><" + canary + ">"}, payloads[:6]...)
+				for _, msg := range msgs {
+					req := verifNewRequest("POST", "/x", url.Values{})
+					req.Host = host
+					if accept != "" {
+						req.Header.Set("Accept", accept)
+					}
+					req.ParseForm()
+					rr := httptest.NewRecorder()
+					env.state.writeFailureResponse(rr, req, code, msg)
+					body := rr.Body.Bytes()
+					doc := c18IsHTML(rr.Header(), body)
+					adminPort := strings.HasSuffix(host, ":6920")
+					acceptHTML := strings.Contains(accept, "text/html")
+					fcases = append(fcases, fmt.Sprintf("(%s, %s, %d, %s, %s, %d, %s, %s)", coqBool(adminPort), coqBool(acceptHTML), code,
+						coqPacked([]byte(http.StatusText(code))), coqPacked([]byte(msg)), c18CtypeClass(rr.Header()), coqPacked(body), coqBool(doc)))
+					fidx = append(fidx, fmt.Sprintf("writeFailureResponse host=%s accept=%q code=%d msg=%q -> Content-Type %q document=%v body=%q", host, accept, code, msg, rr.Header().Get("Content-Type"), doc, c18Truncate(string(body), 120)))
+					page := code == 401 && acceptHTML && !adminPort
+					res.eval(fmt.Sprintf("failure|%s|%s|%d|%s|%v", host, accept, code, msg, doc), strings.Contains(msg, canary))
+					res.bump("failure_responses")
+					if doc && !page {
+						res.bump("failure_lines_rendered_as_document")
+					}
+					if doc && bytes.Contains(body, []byte("<"+canary)) {
+						shape := "line"
+						if page {
+							shape = "page"
+						}
+						res.hit(verifHit{Key: "C18:failure-response:raw-detail-in-document:" + shape, Oracle: "a failure response that a browser renders as a document carries the detail text unescaped",
+							What: fmt.Sprintf("writeFailureResponse(%d, %q) for Host %s, Accept %q: Content-Type %q, body %q", code, msg, host, accept, rr.Header().Get("Content-Type"), c18Truncate(string(body), 160)),
+							Case: map[string]interface{}{"host": host, "accept": accept, "code": code, "message": msg}})
+					}
+				}
+			}
+		}
+	}
+	// ---- html/template's escapers, context by context, against the model (render_field)
+	var ecases, eidx []string
+	{
+		ctxT := []struct {
+			name, pre, post string
+			code            int
+		}{{"text", "<p>", "</p>", 0}, {"attr-dq", `<input value="`, `">`, 1}, {"attr-unquoted", `<input value=`, ` size=18>`, 2}, {"url-attr-rooted", `<a href="/profile/`, `">x</a>`, 3}}
+		var inputs []string
+		inputs = append(inputs, payloads...)
+		for b := 0; b < 128; b++ {
+			inputs = append(inputs, string([]byte{byte(b)}), "a"+string([]byte{byte(b)})+"z")
+		}
+		inputs = append(inputs, "", "alice", "x onx=1", "a=b", "é<ü>", "  ", "&amp;&lt;&#34;", "+1 555", "a\tb\nc\rd\fe\vf", "``", "日本語\"'")
+		rng := verifRand()
+		for i := 0; i < 300; i++ {
+			n := 1 + rng.Intn(12)
+			bs := make([]byte, n)
+			for j := range bs {
+				const alphabet = " \t\n\"'&+<=>`\x00azAZ09-_/:;%?#"
+				bs[j] = alphabet[rng.Intn(len(alphabet))]
+			}
+			inputs = append(inputs, string(bs))
+		}
+		for _, cx := range ctxT {
+			tpl, err := htmltemplate.New("c").Parse(cx.pre + "{{.}}" + cx.post)
+			if err != nil {
+				t.Fatal(err)
+			}
+			for _, in := range inputs {
+				var buf bytes.Buffer
+				if err := tpl.Execute(&buf, in); err != nil {
+					continue
+				}
+				out := buf.String()
+				if !strings.HasPrefix(out, cx.pre) || !strings.HasSuffix(out, cx.post) {
+					res.hit(verifHit{Key: "C18:escaper:" + cx.name + ":frame", Oracle: "the template text around a field is not what was written", What: fmt.Sprintf("%q rendered %q", in, out), Case: in})
+					continue
+				}
+				field := out[len(cx.pre) : len(out)-len(cx.post)]
+				bad := "\"'<>"
+				if cx.code == 2 {
+					bad = "\"'<>= \t\n\r\f\v`"
+				}
+				res.eval("escaper|"+cx.name+"|"+in, strings.ContainsAny(in, bad))
+				res.bump("escaper_renderings:" + cx.name)
+				if strings.ContainsAny(field, bad) || (cx.code == 2 && field == "") {
+					res.hit(verifHit{Key: "C18:escaper:" + cx.name, Oracle: "a rendered field contains a byte that ends its context", What: fmt.Sprintf("%s context: %q rendered as %q", cx.name, in, field), Case: map[string]interface{}{"context": cx.name, "input": in}})
+				}
+				exact := cx.code <= 1
+				if cx.code == 2 {
+					exact = utf8.ValidString(in)
+					for _, r := range in {
+						if 0xfdd0 <= r && r <= 0xfdef || 0xfff0 <= r && r <= 0xffff {
+							exact = false
+						}
+					}
+				}
+				if exact {
+					ecases = append(ecases, fmt.Sprintf("(%d, %s, %s)", cx.code, coqPacked([]byte(in)), coqPacked([]byte(field))))
+					eidx = append(eidx, fmt.Sprintf("context=%s input=%q rendered=%q", cx.name, in, field))
+				}
+			}
+		}
+	}
 	var sb strings.Builder
 	sb.WriteString(coqCaseHeader)
 	sb.WriteString("From KM Require Import Base.Cases Model.Html.\nOpen Scope N_scope.\n")
 	sb.WriteString("(* (output of ensureHTMLSafeLoginDestination, raw VALUE attribute text in the served page) *)\n")
 	sb.WriteString("Definition cases : list (bs * bs) := [\n " + strings.Join(cases, ";\n ") + "].\n")
 	sb.WriteString("Definition c18_mismatches := Eval vm_compute in mismatches (fun c : bs * bs => negb (bs_eqb (html_escape (fst c)) (snd c))) cases.\nPrint c18_mismatches.\nDefinition c18_ncases := Eval vm_compute in length cases.\nPrint c18_ncases.\n")
+	sb.WriteString("(* (admin port, Accept has text/html, status code, status text, detail, declared type 0 html 1 plain 2 absent 3 other, body, rendered as a document) *)\n")
+	sb.WriteString("Definition fcases : list (bool * bool * N * bs * bs * N * bs * bool) := [\n " + strings.Join(fcases, ";\n ") + "].\n")
+	sb.WriteString("Definition fbad (c : bool * bool * N * bs * bs * N * bs * bool) : bool :=\n  let '(admin, accept, code, status, msg, ct, body, doc) := c in\n  let r := failure_response admin accept code status msg [Trusted body] in\n  negb ((ct_code (r_ctype r) =? ct) && bs_eqb (render (r_body r)) body && Bool.eqb (rendered_as_document r) doc).\n")
+	sb.WriteString("Definition c18_failure_mismatches := Eval vm_compute in mismatches fbad fcases.\nPrint c18_failure_mismatches.\nDefinition c18_nfcases := Eval vm_compute in length fcases.\nPrint c18_nfcases.\n")
+	sb.WriteString("(* (context 0 text 1 quoted attribute 2 unquoted attribute, field value, bytes html/template rendered for it) *)\n")
+	sb.WriteString("Definition ecases : list (N * bs * bs) := [\n " + strings.Join(ecases, ";\n ") + "].\n")
+	sb.WriteString("Definition ebad (c : N * bs * bs) : bool :=\n  let '(k, s, out) := c in\n  let cx := if k =? 0 then CtxText else if k =? 1 then CtxAttrQuoted else CtxAttrUnquoted in\n  negb (bs_eqb (render_field cx s) out).\n")
+	sb.WriteString("Definition c18_escaper_mismatches := Eval vm_compute in mismatches ebad ecases.\nPrint c18_escaper_mismatches.\nDefinition c18_necases := Eval vm_compute in length ecases.\nPrint c18_necases.\n")
 	if err := ioutil.WriteFile(filepath.Join(verifOut(), "CasesC18.v"), []byte(sb.String()), 0644); err != nil {
 		t.Fatal(err)
 	}
 	ioutil.WriteFile(filepath.Join(verifOut(), "CasesC18.idx"), []byte(strings.Join(idx, "\n")), 0644)
+	ioutil.WriteFile(filepath.Join(verifOut(), "CasesC18f.idx"), []byte(strings.Join(fidx, "\n")), 0644)
+	ioutil.WriteFile(filepath.Join(verifOut(), "CasesC18e.idx"), []byte(strings.Join(eidx, "\n")), 0644)
 	if len(cases) == 0 {
 		res.hit(verifHit{Key: "C18:harness:no-input", Oracle: "harness", What: "no page with the hidden input was produced", Case: ""})
 	}
